@@ -531,13 +531,25 @@ type apiCall struct {
 	fn   func() string
 }
 
-func safe(fn func() string) (res string) {
-	defer func() {
-		if p := recover(); p != nil {
-			res = fmt.Sprintf("panic: %v", p)
-		}
+var callDeadline = 120 * time.Second
+
+// safe runs fn with panic recovery and a deadline ("timeout" = it never returned).
+func safe(fn func() string) string {
+	ch := make(chan string, 1)
+	go func() {
+		defer func() {
+			if p := recover(); p != nil {
+				ch <- fmt.Sprintf("panic: %v", p)
+			}
+		}()
+		ch <- fn()
 	}()
-	return fn()
+	select {
+	case r := <-ch:
+		return r
+	case <-time.After(callDeadline):
+		return "timeout"
+	}
 }
 
 func buildAPICalls(rng *Rand, thorough bool) []apiCall {
@@ -744,6 +756,14 @@ func main() {
 		return
 	}
 	runtime.GOMAXPROCS(6)
+	// A lost wake-up leaves goroutines blocked for ever; keep a timer alive so that the
+	// runtime's global deadlock detector does not kill the harness before it has
+	// reported the violation (every wait below has its own deadline).
+	go func() {
+		for {
+			time.Sleep(500 * time.Millisecond)
+		}
+	}()
 	Main("c10", run)
 }
 
@@ -754,6 +774,7 @@ func run(c *Ctx) {
 	deadline := 60 * time.Second
 	if ms, err := strconv.Atoi(os.Getenv("C10_DEADLINE_MS")); err == nil && ms > 0 {
 		deadline = time.Duration(ms) * time.Millisecond // for mutation experiments
+		callDeadline = 4 * deadline
 	}
 	mrng := c.Rng.Fork()
 
@@ -765,10 +786,17 @@ func run(c *Ctx) {
 		webp.VerifResetOverrides()
 	}
 
+	timeouts := 0
+	// after a few runs that never returned the remaining schedule experiments are
+	// skipped (each would cost a full deadline); the violations are already recorded
+	giveUp := func() bool { return timeouts >= 4 }
 	compare := func(j *encJob, kind string, n int, got string, extra map[string]any) {
 		c.D.Evaluations++
 		if got == ref[j] {
 			return
+		}
+		if got == "timeout" {
+			timeouts++
 		}
 		key := "schedule-dependent-output/" + kind
 		if got == "timeout" {
@@ -822,6 +850,9 @@ func run(c *Ctx) {
 	for _, j := range jobs {
 		for _, n := range workerSet {
 			for _, kind := range []string{"free", "perturbed"} {
+				if giveUp() {
+					continue
+				}
 				webp.VerifResetOverrides()
 				webp.VerifSetWorkers(sEncodeParallel, n)
 				if kind == "perturbed" {
@@ -885,6 +916,9 @@ func run(c *Ctx) {
 		}
 		for _, sc := range scenarios {
 			for _, n := range []int{3, 6} {
+				if giveUp() {
+					continue
+				}
 				d := &director{seen: map[pt]bool{}, rules: sc.rules(j), slowRow: sc.slow}
 				webp.VerifResetOverrides()
 				webp.VerifSetWorkers(sEncodeParallel, n)
@@ -917,6 +951,9 @@ func run(c *Ctx) {
 	for _, j := range jobs {
 		for n := 1; n <= 6; n++ {
 			for r := 0; r < reps; r++ {
+				if giveUp() {
+					continue
+				}
 				p := &perturb{seed: c.Rng.U64(), rate: uint64(2 + r%5)}
 				webp.VerifResetOverrides()
 				webp.VerifSetWorkers(sEncodeParallel, n)
@@ -930,6 +967,9 @@ func run(c *Ctx) {
 		}
 	}
 
+	if giveUp() {
+		c.D.Notes = append(c.D.Notes, "schedule experiments were cut short after 4 runs that never returned")
+	}
 	// ---- (d) concurrent public API use
 	calls := buildAPICalls(c.Rng.Fork(), thorough)
 	solo := make([]string, len(calls))
@@ -952,6 +992,10 @@ func run(c *Ctx) {
 		for _, d := range diffs {
 			kind := strings.SplitN(d["call"].(string), "/", 2)[0]
 			d["goroutines"] = par
+			if d["concurrent"] == "timeout" {
+				c.Violate("deadlock-or-lost-wakeup/concurrent-use/"+kind, "a public API call made concurrently with others never returned", d)
+				continue
+			}
 			c.Violate("concurrent-use/"+kind, "a public API call returns something else when other calls run concurrently", d)
 		}
 		for k := range calls {
